@@ -661,6 +661,11 @@ class SK(object):
             if isinstance(cls, tuple):
                 fi = self.m.lookup(cls, e.attr, 'methods')
                 if fi is not None:
+                    decos = {norm(d_) for d_ in getattr(fi.node, 'decorator_list', [])}
+                    if 'staticmethod' in decos:
+                        return FnRef(fi)                                # no implicit first argument
+                    if 'classmethod' in decos:
+                        return FnRef(fi, bound=('class', cls))
                     return FnRef(fi, bound=b)
                 g = self.m.lookup(cls, e.attr, 'getters')
                 if g is not None:
@@ -1477,7 +1482,7 @@ def _minmax(f):
 
 
 BUILTINS = {
-    'range': Py(lambda sk, n, *a: list(range(*a)), 'range'), 'len': Py(lambda sk, n, x: _len(sk, n, x), 'len'),
+    'range': Py(lambda sk, n, *a: list(range(*a)) if all(isinstance(x, int) and not isinstance(x, bool) for x in a) else (_ for _ in ()).throw(Raised('TypeError', 'range() of %r' % (a,), n)), 'range'), 'len': Py(lambda sk, n, x: _len(sk, n, x), 'len'),
     'min': Py(_minmax(min), 'min'), 'max': Py(_minmax(max), 'max'),
     'int': Py(lambda sk, n, x=0: _int(sk, n, x), 'int'), 'float': Py(_float, 'float'),
     'abs': Py(lambda sk, n, x: ((Gap(abs(x.mag), x.off * x.sign) if x.mag else Gap(0, abs(x.off))) if isinstance(x, Gap) else DEF()) if isinstance(x, Tok) else abs(x), 'abs'), 'round': Py(_round, 'round'),
@@ -1488,6 +1493,7 @@ BUILTINS = {
     'getattr': Py(lambda sk, n, ob, k, *d: _getattr(sk, n, ob, k, *d), 'getattr'),
     'hasattr': Py(lambda sk, n, ob, k: isinstance(ob, Bag) and k in ob._a, 'hasattr'),
     'dict': Py(lambda sk, n, *a, **k: dict(*a, **k), 'dict'), 'deepcopy': Py(_deepcopy_tracked, 'deepcopy'),
+    'divmod': Py(lambda sk, n, a, b: divmod(a, b) if all(isinstance(x, (int, float)) and not isinstance(x, bool) for x in (a, b)) else DEF(), 'divmod'),
     'sum': Py(_sum, 'sum'), 'reversed': Py(lambda sk, n, x: list(reversed(x)), 'reversed'), 'sorted': Py(lambda sk, n, x, **k: _sorted(sk, n, x, **k), 'sorted'),
     'reduce': Py(lambda sk, n, f, seq, *init: _reduce(sk, n, f, seq, *init), 'reduce'),
     'partial': Py(lambda sk, n, f, *a, **k: Py(lambda sk2, n2, *a2, _f=f, _a=a, _k=k, **k2: sk2.apply(_f, list(_a) + list(a2), dict(_k, **k2), n2), 'partial'), 'partial'),
